@@ -343,7 +343,7 @@ def build_for(case):
 
     def build(arena):
         arena.start = case.get('start', 0)
-        queue = Queue()
+        queue = inject.made(case, Queue)
         wrap = Twin if case.get('twins') else odd if case.get('odd') else str
         if case.get('nones'):
             # every other item is None (a valid item: it must not look like 'nothing there')
@@ -509,7 +509,7 @@ def build_for(case):
         background = []
         if case['index'] % 3 == 0:
             # another, independent queue is busy at the same time: queues share nothing
-            other = Queue()
+            other = inject.made(case, Queue)
 
             async def elsewhere():
                 async def taker():
